@@ -1,17 +1,22 @@
-//@@ unit props=C14,C06
-// Unit xlsfml: the BIFF8 token renderer `parse_formula` of src/xls.rs (verbatim text), step 1 skeleton.
+//@@ unit props=C14,C06 rlimit=200
+// Unit xlsfml: the BIFF8 token renderer `parse_formula` of src/xls.rs (verbatim text, one 320-line function) under Verus.
 #![feature(allocator_api)]
 #![allow(unused_imports, dead_code, unused_variables, unused_mut, unused_assignments, unexpected_cfgs, deprecated)]
 use vstd::prelude::*;
 use std::slice::Windows;
+use std::ops::{Index, Range};
+use std::slice::SliceIndex;
 use vstd::std_specs::iter::IteratorSpec;
+use vstd::std_specs::core::IndexSpec;
 
 verus! {
 
+// ---- stand-ins for foreign types (opaque plumbing; never inspected by the verified code)
 pub mod vba { pub struct VbaError; }
 #[verifier::external_type_specification] #[verifier::external_body] pub struct ExIoError(std::io::Error);
 pub mod cfb { pub struct CfbError { _opaque: u8 } }
 use cfb::CfbError;
+/// stand-in for cfb::XlsEncoding (wraps an encoding_rs table; only handed through to the string decoder)
 pub struct XlsEncoding { _opaque: u8 }
 
 //@@ item src/xls.rs enum XlsError cfg_off=picture
@@ -25,59 +30,672 @@ use vstd::prelude::*;
 
 //@@ include common/bytes.rs
 
-// ---- String model
+// =====================================================================================================================
+// String model: a String is its sequence of chars (vstd's view); byte offsets are related to it by the UTF-8 width of each char
+// =====================================================================================================================
+/// UTF-8 width of a char ([RFC 3629] / core::char::len_utf8)
 pub open spec fn cw(c: char) -> nat { if (c as u32) < 0x80 { 1 } else if (c as u32) < 0x800 { 2 } else if (c as u32) < 0x10000 { 3 } else { 4 } }
+/// length in bytes of the UTF-8 encoding of s
 pub open spec fn blen(s: Seq<char>) -> nat decreases s.len() { if s.len() == 0 { 0 } else { blen(s.drop_last()) + cw(s.last()) } }
+/// byte offset b is a char boundary of s (0, len, or the start of a char)
 pub open spec fn is_bnd(s: Seq<char>, b: int) -> bool { exists|k: int| 0 <= k <= s.len() && blen(s.take(k)) == b }
+/// the number of chars in front of byte offset b
 pub open spec fn cidx(s: Seq<char>, b: int) -> int { choose|k: int| 0 <= k <= s.len() && blen(s.take(k)) == b }
 
+// TRUSTED: String::with_capacity(n): "Creates a new empty String with at least the specified capacity"
 pub assume_specification[ String::with_capacity ](n: usize) -> (r: String)
     ensures r@ == Seq::<char>::empty();
+// TRUSTED: String::len: "Returns the length of this String, in bytes, not chars"
 pub assume_specification[ String::len ](s: &String) -> (r: usize)
     ensures r == blen(s@);
+// TRUSTED: String::insert(idx, ch): "Inserts a character into this String at byte position idx. Panics if idx is larger than the String's length, or if it does not lie on a char boundary"
 pub assume_specification[ String::insert ](s: &mut String, idx: usize, ch: char)
     requires is_bnd(old(s)@, idx as int),
     ensures final(s)@ == old(s)@.take(cidx(old(s)@, idx as int)).push(ch) + old(s)@.skip(cidx(old(s)@, idx as int));
+// TRUSTED: String::split_off(at): "Splits the string into two at the given byte index. Returns a newly allocated String. self contains bytes [0, at), and the returned String contains bytes [at, len). Panics if at is not on a UTF-8 code point boundary, or if it is beyond the last code point of the string"
 pub assume_specification[ String::split_off ](s: &mut String, at: usize) -> (r: String)
     requires is_bnd(old(s)@, at as int),
     ensures final(s)@ == old(s)@.take(cidx(old(s)@, at as int)), r@ == old(s)@.skip(cidx(old(s)@, at as int));
+// TRUSTED: `&s[a..b]` on a String (str::index, Range<usize>): "Returns a slice of the given string from the byte range [begin, end). Panics if begin or end does not point to the starting byte offset of a character, if begin > end, or if end > len"
+pub uninterp spec fn str_index_post<I: SliceIndex<str>>(s: Seq<char>, i: I, x: &<I as SliceIndex<str>>::Output) -> bool;
+pub assume_specification<I: SliceIndex<str>>[ <String as Index<I>>::index ](s: &String, i: I) -> (x: &<I as SliceIndex<str>>::Output)
+    ensures str_index_post(s@, i, x);
+pub broadcast axiom fn axiom_str_index_range(s: Seq<char>, r: Range<usize>, x: &str)
+    ensures #[trigger] str_index_post::<Range<usize>>(s, r, x) ==> x@ == s.subrange(cidx(s, r.start as int), cidx(s, r.end as int));
+pub broadcast axiom fn axiom_string_index_req_range(s: &String, r: Range<usize>)
+    ensures r.start <= r.end && is_bnd(s@, r.start as int) && is_bnd(s@, r.end as int) ==> #[trigger] <String as IndexSpec<Range<usize>>>::index_req(s, &r);
 
 // TRUSTED: Option::map_or (core::option documentation): the default for None, f(value) for Some
 pub assume_specification<T, U, F: FnOnce(T) -> U>[ Option::<T>::map_or ](o: Option<T>, d: U, f: F) -> (r: U)
     requires o matches Some(v) ==> call_requires(f, (v,)),
     ensures o is None ==> r == d, o matches Some(v) ==> call_ensures(f, (v,), r);
+// TRUSTED: core::slice::windows doc: "Returns an iterator over all contiguous windows of length size. The windows overlap. If the slice is
+// shorter than size, the iterator returns no values. Panics if size is zero."  (`win_from(s, n, k, r)`: r = the windows from window k on)
 #[verifier::external_type_specification] #[verifier::external_body] #[verifier::reject_recursive_types(T)]
 pub struct ExWindows<'a, T: 'a>(Windows<'a, T>);
-pub open spec fn win_ok<T>(s: Seq<T>, n: int, r: Seq<&[T]>) -> bool {
-    r.len() == (if s.len() >= n { s.len() - n + 1 } else { 0 })
-    && forall|i: int| 0 <= i < r.len() ==> (#[trigger] r[i])@ == s.subrange(i, i + n)
+pub open spec fn win_from<T>(s: Seq<T>, n: int, k: int, r: Seq<&[T]>) -> bool {
+    r.len() == (if s.len() >= n { s.len() - n + 1 } else { 0 }) - k
+    && forall|i: int| 0 <= i < r.len() ==> (#[trigger] r[i])@ == s.subrange(k + i, k + i + n)
 }
 pub assume_specification<'a, T>[ <[T]>::windows ](s: &'a [T], n: usize) -> (r: Windows<'a, T>)
     requires n != 0,
-    ensures r.obeys_prophetic_iter_laws(), win_ok(s@, n as int, r.remaining());
+    ensures r.obeys_prophetic_iter_laws(), win_from(s@, n as int, 0, r.remaining());
+// TRUSTED: `for x in &mut vec` is `vec.iter_mut()` (impl IntoIterator for &mut Vec): yields a mutable reference to every element in order;
+// same shape as vstd's specification of <[T]>::iter_mut (current values = old vector, final values = final vector)
+pub assume_specification<'a, T, A: std::alloc::Allocator>[ <&'a mut Vec<T, A> as IntoIterator>::into_iter ](v: &'a mut Vec<T, A>) -> (r: <&'a mut Vec<T, A> as IntoIterator>::IntoIter)
+    ensures
+        r.obeys_prophetic_iter_laws(), r.decrease() is Some, r.remaining().len() == old(v)@.len(), final(v)@.len() == old(v)@.len(),
+        forall|i: int| 0 <= i < old(v)@.len() ==> *(#[trigger] r.remaining()[i]) == old(v)@[i],
+        forall|i: int| #![trigger r.remaining()[i]] #![trigger final(v)@[i]] 0 <= i < old(v)@.len() ==> *final(r.remaining()[i]) == final(v)@[i];
 
+// ---- formatting (rule R13 expands `write!(&mut s, "..{}..", a).unwrap()` / `format!` into these two)
+/// the text `Display` produces for a value
 pub uninterp spec fn display<T>(x: T) -> Seq<char>;
+// TRUSTED: the literal pieces of a format string are written as they are
 #[verifier::external_body] fn verif_fmt_lit(dst: &mut String, lit: &str)
     ensures final(dst)@ == old(dst)@ + lit@,
 { unimplemented!() }
+// TRUSTED: a `{}` placeholder writes the `Display` text of its argument
 #[verifier::external_body] fn verif_fmt_arg<T>(dst: &mut String, a: &T)
     ensures final(dst)@ == old(dst)@ + display::<T>(*a),
 { unimplemented!() }
+// TRUSTED: Display for u16 / u32: decimal digits without sign or leading zeros; for &str / String: the text itself
+pub broadcast axiom fn axiom_display_u16(x: u16) ensures #[trigger] display::<u16>(x) == dec(x as nat);
+pub broadcast axiom fn axiom_display_u32(x: u32) ensures #[trigger] display::<u32>(x) == dec(x as nat);
+pub broadcast axiom fn axiom_display_str(x: &str) ensures #[trigger] display::<&str>(x) == x@;
+pub broadcast axiom fn axiom_display_string(x: String) ensures #[trigger] display::<String>(x) == x@;
 
-pub uninterp spec fn ustr_text(e: XlsEncoding, buf: Seq<u8>, len: int) -> Seq<char>;
+// ---- callees (contracts proved elsewhere)
+/// the characters of an XLUnicodeStringNoCch body: `bytes` as 16-bit code units (fHighByte = 1) or zero-extended bytes (fHighByte = 0), decoded
+// TRUSTED: unit xlsstr, C19.nocch_text: read_unicode_string_no_cch appends `str_text(enc, Some(buf[0] & 1 != 0), buf.skip(1), len)` when the
+// buffer holds the flag byte and `len` characters of that width; xl_chars(e, hb, b) stands for xlsstr's `decode(e, if hb { b } else { zext(b) })`;
+// in every case the old content stays in front (decode_to only appends)
+pub uninterp spec fn xl_chars(e: XlsEncoding, hb: bool, bytes: Seq<u8>) -> Seq<char>;
+pub open spec fn xl_width(hb: bool) -> int { if hb { 2 } else { 1 } }
 #[verifier::external_body] fn read_unicode_string_no_cch(encoding: &XlsEncoding, buf: &[u8], len: &usize, s: &mut String)
-    ensures final(s)@ == old(s)@ + ustr_text(*encoding, buf@, *len as int),
+    ensures
+        buf@.len() >= 1 && buf@.len() - 1 >= *len * xl_width(buf@[0] & 0x1 != 0)
+            ==> final(s)@ == old(s)@ + xl_chars(*encoding, buf@[0] & 0x1 != 0, buf@.subrange(1, 1 + *len * xl_width(buf@[0] & 0x1 != 0))),
+        final(s)@.len() >= old(s)@.len() && final(s)@.take(old(s)@.len() as int) == old(s)@,
 { unimplemented!() }
 
-pub uninterp spec fn col_letters(col: int) -> Seq<char>;
+// the contract of utils::push_column, in the words of unit colname (same spec text)
+pub open spec fn is_upper_c(c: char) -> bool { 'A' <= c && c <= 'Z' }
+pub open spec fn letter_val_c(c: char) -> nat { (c as u32 - 0x41 + 1) as nat }
+pub open spec fn b26c(s: Seq<char>) -> nat decreases s.len() { if s.len() == 0 { 0 } else { b26c(s.drop_last()) * 26 + letter_val_c(s.last()) } }
+pub open spec fn all_upper_c(s: Seq<char>) -> bool { forall|i: int| 0 <= i < s.len() ==> is_upper_c(#[trigger] s[i]) }
+pub open spec fn appended(old: Seq<char>, new: Seq<char>) -> Seq<char> { new.subrange(old.len() as int, new.len() as int) }
+// TRUSTED: proved in unit colname (C14.column_letters_frame, column_letters_uppercase, column_letters): the appended text is the string of
+// uppercase letters whose bijective base-26 value is col + 1.  lemma_colname_contract (below, verified) shows that these three clauses
+// determine the text: it is col_name(col).
 #[verifier::external_body] pub fn push_column(col: u32, buf: &mut String)
-    ensures final(buf)@ == old(buf)@ + col_letters(col as int),
+    ensures final(buf)@ == old(buf)@ + col_name(col as int),
 { unimplemented!() }
 
+// =====================================================================================================================
+// ORACLE, written from [MS-XLS] 2.5.198 (formula tokens, BIFF8) and the property text -- independent of the code
+// =====================================================================================================================
+pub open spec fn digit(d: int) -> char {
+    if d == 0 { '0' } else if d == 1 { '1' } else if d == 2 { '2' } else if d == 3 { '3' } else if d == 4 { '4' }
+    else if d == 5 { '5' } else if d == 6 { '6' } else if d == 7 { '7' } else if d == 8 { '8' } else { '9' }
+}
+/// decimal numeral of n, no leading zeros
+pub open spec fn dec(n: nat) -> Seq<char> decreases n { if n < 10 { seq![digit(n as int)] } else { dec(n / 10).push(digit((n % 10) as int)) } }
+pub open spec fn letter(d: int) -> char { ((0x41 + d) as u8) as char }
+/// bijective base-26 numeral of n >= 1 over A..Z (A = 1 .. Z = 26, AA = 27 ..): spreadsheet column letters of column n - 1
+pub open spec fn b26(n: nat) -> Seq<char> decreases n { if n == 0 { Seq::empty() } else { b26(((n - 1) / 26) as nat).push(letter((n - 1) % 26)) } }
+/// letters of the 0-based column
+pub open spec fn col_name(col: int) -> Seq<char> { b26((col + 1) as nat) }
+
+/// [MS-XLS] 2.5.198.108 RgceLoc / 2.5.51 ColRelU: 16-bit field = col (bits 0-13), colRelative (bit 14), rowRelative (bit 15)
+pub open spec fn f_col(f: int) -> int { f % 16384 }
+pub open spec fn f_col_rel(f: int) -> bool { (f / 16384) % 2 == 1 }
+pub open spec fn f_row_rel(f: int) -> bool { (f / 32768) % 2 == 1 }
+/// a `$` exactly on the absolute components
+pub open spec fn dollar(absolute: bool) -> Seq<char> { if absolute { seq!['$'] } else { Seq::empty() } }
+/// A1 text of a cell reference: rw = 0-based row, f = column field with its two flag bits
+pub open spec fn cell_text(rw: int, f: int) -> Seq<char> { dollar(!f_col_rel(f)) + col_name(f_col(f)) + dollar(!f_row_rel(f)) + dec((rw + 1) as nat) }
+/// [MS-XLS] 2.5.198.107 RgceArea: rowFirst, rowLast, columnFirst, columnLast -- each column field carries the flags of its own corner
+pub open spec fn area_text(rw1: int, rw2: int, f1: int, f2: int) -> Seq<char> { cell_text(rw1, f1) + seq![':'] + cell_text(rw2, f2) }
+
+/// what the renderer is given: sheet names (BoundSheet8 order), defined names (Lbl order), the XTI table of ExternSheet, the code page
+struct Ctx { pub sheets: Seq<Seq<char>>, pub names: Seq<Seq<char>>, pub xtis: Seq<Xti>, pub enc: XlsEncoding }
+spec fn mk_ctx(sheets: Seq<String>, names: Seq<(String, String)>, xtis: Seq<Xti>, enc: XlsEncoding) -> Ctx {
+    Ctx { sheets: Seq::new(sheets.len(), |i: int| sheets[i]@), names: Seq::new(names.len(), |i: int| names[i].0@), xtis: xtis, enc: enc }
+}
+/// [MS-XLS] 2.5.198.85 PtgRef3d: "ixti: An unsigned integer that specifies an XTI structure ... in the ExternSheet record"; 2.5.345 XTI:
+/// itabFirst / itabLast = first / last sheet of the reference.  In the oracle's scope: an existing XTI naming ONE existing sheet.
+spec fn sheet_name(ixti: int, c: Ctx) -> Option<Seq<char>> {
+    if 0 <= ixti < c.xtis.len() && c.xtis[ixti].itab_first == c.xtis[ixti]._itab_last && 0 <= c.xtis[ixti].itab_first < c.sheets.len() {
+        Some(c.sheets[c.xtis[ixti].itab_first as int])
+    } else { None }
+}
+/// what a token does to the stack of rendered operands
+pub enum Tok {
+    Operand(Seq<char>),      // pushes its text
+    Binary(Seq<char>),       // a b -> a OP b
+    Prefix(char),            // a -> OP a
+    Percent,                 // a -> a%
+    Paren,                   // a -> (a)
+    Func(Seq<char>, int),    // a1 .. an -> NAME(a1,..,an)
+    Sum,                     // a -> SUM(a)     (PtgAttrSum)
+    Skip,                    // no display effect
+}
+/// [MS-XLS] 2.5.198.25 Ptg table, binary operators 0x03 - 0x11
+pub open spec fn binop(p: int) -> Seq<char> {
+    if p == 0x03 { "+"@ } else if p == 0x04 { "-"@ } else if p == 0x05 { "*"@ } else if p == 0x06 { "/"@ } else if p == 0x07 { "^"@ }
+    else if p == 0x08 { "&"@ } else if p == 0x09 { "<"@ } else if p == 0x0A { "<="@ } else if p == 0x0B { "="@ } else if p == 0x0C { ">="@ }
+    else if p == 0x0D { ">"@ } else if p == 0x0E { "<>"@ } else if p == 0x0F { " "@ } else if p == 0x10 { ","@ } else { ":"@ }
+}
+/// [MS-XLS] 2.5.10 BErr
+pub open spec fn err_text(e: int) -> Option<Seq<char>> {
+    if e == 0x00 { Some("#NULL!"@) } else if e == 0x07 { Some("#DIV/0!"@) } else if e == 0x0F { Some("#VALUE!"@) } else if e == 0x17 { Some("#REF!"@) }
+    else if e == 0x1D { Some("#NAME?"@) } else if e == 0x24 { Some("#NUM!"@) } else if e == 0x2A { Some("#N/A"@) } else if e == 0x2B { Some("#GETTING_DATA"@) }
+    else { None }
+}
+/// operand-class tokens exist in three data classes (bits 5-6 of the ptg: reference 0x20 / value 0x40 / array 0x60) with the same layout
+pub open spec fn ptg_base(p: int) -> int { if p >= 0x20 { p % 32 + 32 } else { p } }
+// the function table [MS-XLS] 2.5.198.17 Ftab is data of the crate (utils::FTAB / FTAB_ARGC); it cannot be checked against the document here
+pub open spec fn ftab_name(i: int) -> Seq<char> { crate::utils::FTAB@[i]@ }
+pub open spec fn ftab_argc(i: int) -> int { crate::utils::FTAB_ARGC@[i] as int }
+
+/// the token at the head of rg and its size in bytes.  None: truncated, undefined, or outside the oracle's scope (PtgExp, PtgTbl, PtgArray,
+/// PtgNameX, PtgMem*, PtgRefN/AreaN, PtgElf*, PtgAttrSpace, multi-sheet / external 3-D references, user-defined / command-equivalent functions)
+spec fn decode(rg: Seq<u8>, c: Ctx) -> Option<(Tok, int)> {
+    if rg.len() == 0 { None } else {
+        let p = rg[0] as int;
+        let d = rg.skip(1);
+        let b = ptg_base(p);
+        if p >= 0x80 { None }
+        else if 0x03 <= p <= 0x11 { Some((Tok::Binary(binop(p)), 1)) }
+        else if p == 0x12 { Some((Tok::Prefix('+'), 1)) }                                   // PtgUplus
+        else if p == 0x13 { Some((Tok::Prefix('-'), 1)) }                                   // PtgUminus
+        else if p == 0x14 { Some((Tok::Percent, 1)) }                                       // PtgPercent
+        else if p == 0x15 { Some((Tok::Paren, 1)) }                                         // PtgParen
+        else if p == 0x16 { Some((Tok::Operand(Seq::empty()), 1)) }                         // PtgMissArg
+        else if p == 0x17 {                                                                 // PtgStr: ShortXLUnicodeString = cch (1), fHighByte (1), rgb
+            if d.len() >= 2 && d.len() >= 2 + d[0] as int * xl_width(d[1] & 0x1 != 0) {
+                let n = d[0] as int * xl_width(d[1] & 0x1 != 0);
+                Some((Tok::Operand(seq!['"'] + xl_chars(c.enc, d[1] & 0x1 != 0, d.subrange(2, 2 + n)) + seq!['"']), 3 + n))
+            } else { None }
+        }
+        else if p == 0x19 {                                                                 // PtgAttr*: etpg flags (1), data (2)
+            if d.len() >= 3 {
+                let e = d[0] as int;
+                if e == 0x01 || e == 0x02 || e == 0x08 || e == 0x20 || e == 0x21 { Some((Tok::Skip, 4)) }       // Semi, If, Goto, Baxcel
+                else if e == 0x04 { Some((Tok::Skip, 4 + 2 * (le16(d.skip(1)) + 1))) }                         // Choose: cOffset, rgOffset[cOffset + 1]
+                else if e == 0x10 { Some((Tok::Sum, 4)) }                                                       // Sum
+                else { None }
+            } else { None }
+        }
+        else if p == 0x1C { if d.len() >= 1 && err_text(d[0] as int) is Some { Some((Tok::Operand(err_text(d[0] as int)->Some_0), 2)) } else { None } }   // PtgErr
+        else if p == 0x1D { if d.len() >= 1 && d[0] <= 1 { Some((Tok::Operand(if d[0] == 0 { "FALSE"@ } else { "TRUE"@ }), 2)) } else { None } }       // PtgBool
+        else if p == 0x1E { if d.len() >= 2 { Some((Tok::Operand(dec(le16(d) as nat)), 3)) } else { None } }                                           // PtgInt: unsigned 16-bit
+        else if p == 0x1F { if d.len() >= 8 { Some((Tok::Operand(display::<f64>(f64_of_bits(le64(d)))), 9)) } else { None } }                         // PtgNum: Xnum (text of a double: uninterpreted)
+        else if b == 0x21 {                                                                 // PtgFunc: iftab (2); fixed parameter count from the table
+            if d.len() >= 2 && le16(d) < crate::utils::FTAB_LEN { Some((Tok::Func(ftab_name(le16(d)), ftab_argc(le16(d))), 3)) } else { None }
+        }
+        else if b == 0x22 {                                                                 // PtgFuncVar: cparams (7 bits) fPrompt (1), tab (15 bits) fCeFunc (1)
+            if d.len() >= 3 && d[0] < 128 && le16(d.skip(1)) < crate::utils::FTAB_LEN && le16(d.skip(1)) != 255 {
+                Some((Tok::Func(ftab_name(le16(d.skip(1))), d[0] as int), 4))
+            } else { None }
+        }
+        else if b == 0x23 {                                                                 // PtgName: nameindex (4), one-based index of a Lbl record
+            if d.len() >= 4 && 1 <= le32(d) <= c.names.len() { Some((Tok::Operand(c.names[le32(d) - 1]), 5)) } else { None }
+        }
+        else if b == 0x24 { if d.len() >= 4 { Some((Tok::Operand(cell_text(le16(d), le16(d.skip(2)))), 5)) } else { None } }                          // PtgRef: RgceLoc
+        else if b == 0x25 {                                                                 // PtgArea: RgceArea
+            if d.len() >= 8 { Some((Tok::Operand(area_text(le16(d), le16(d.skip(2)), le16(d.skip(4)), le16(d.skip(6)))), 9)) } else { None }
+        }
+        else if b == 0x2A { if d.len() >= 4 { Some((Tok::Operand("#REF!"@), 5)) } else { None } }                                                     // PtgRefErr
+        else if b == 0x2B { if d.len() >= 8 { Some((Tok::Operand("#REF!"@), 9)) } else { None } }                                                     // PtgAreaErr
+        else if b == 0x3A {                                                                 // PtgRef3d: ixti (2), RgceLoc
+            if d.len() >= 6 && sheet_name(le16(d), c) is Some {
+                Some((Tok::Operand(sheet_name(le16(d), c)->Some_0 + seq!['!'] + cell_text(le16(d.skip(2)), le16(d.skip(4)))), 7))
+            } else { None }
+        }
+        else if b == 0x3B {                                                                 // PtgArea3d: ixti (2), RgceArea
+            if d.len() >= 10 && sheet_name(le16(d), c) is Some {
+                Some((Tok::Operand(sheet_name(le16(d), c)->Some_0 + seq!['!'] + area_text(le16(d.skip(2)), le16(d.skip(4)), le16(d.skip(6)), le16(d.skip(8)))), 11))
+            } else { None }
+        }
+        else if b == 0x3C { if d.len() >= 6 && sheet_name(le16(d), c) is Some { Some((Tok::Operand(sheet_name(le16(d), c)->Some_0 + seq!['!'] + "#REF!"@), 7)) } else { None } }    // PtgRefErr3d
+        else if b == 0x3D { if d.len() >= 10 && sheet_name(le16(d), c) is Some { Some((Tok::Operand(sheet_name(le16(d), c)->Some_0 + seq!['!'] + "#REF!"@), 11)) } else { None } }  // PtgAreaErr3d
+        else { None }
+    }
+}
+/// arguments in order, separated by commas
+pub open spec fn join(a: Seq<Seq<char>>) -> Seq<char> decreases a.len() {
+    if a.len() == 0 { Seq::empty() } else if a.len() == 1 { a[0] } else { join(a.drop_last()) + seq![','] + a.last() }
+}
+/// the operand stack after the token (None: not enough operands)
+pub open spec fn apply(t: Tok, ops: Seq<Seq<char>>) -> Option<Seq<Seq<char>>> {
+    let n = ops.len() as int;
+    match t {
+        Tok::Operand(x) => Some(ops.push(x)),
+        Tok::Binary(op) => if n >= 2 { Some(ops.take(n - 2).push(ops[n - 2] + op + ops[n - 1])) } else { None },
+        Tok::Prefix(ch) => if n >= 1 { Some(ops.take(n - 1).push(seq![ch] + ops[n - 1])) } else { None },
+        Tok::Percent => if n >= 1 { Some(ops.take(n - 1).push(ops[n - 1] + seq!['%'])) } else { None },
+        Tok::Paren => if n >= 1 { Some(ops.take(n - 1).push(seq!['('] + ops[n - 1] + seq![')'])) } else { None },
+        Tok::Sum => if n >= 1 { Some(ops.take(n - 1).push("SUM("@ + ops[n - 1] + seq![')'])) } else { None },
+        Tok::Func(name, argc) => if 0 <= argc <= n { Some(ops.take(n - argc).push(name + seq!['('] + join(ops.skip(n - argc)) + seq![')'])) } else { None },
+        Tok::Skip => Some(ops),
+    }
+}
+/// one token: bytes consumed and the new operand stack
+spec fn step(rg: Seq<u8>, ops: Seq<Seq<char>>, c: Ctx) -> Option<(int, Seq<Seq<char>>)> {
+    match decode(rg, c) {
+        Some((t, n)) => if 0 < n <= rg.len() { match apply(t, ops) { Some(o2) => Some((n, o2)), None => None } } else { None },
+        None => None,
+    }
+}
+/// the whole token stream, in evaluation order
+spec fn run(rg: Seq<u8>, ops: Seq<Seq<char>>, c: Ctx) -> Option<Seq<Seq<char>>>
+    decreases rg.len()
+{
+    if rg.len() == 0 { Some(ops) } else {
+        match step(rg, ops, c) { Some((n, o2)) => run(rg.skip(n), o2, c), None => None }
+    }
+}
+pub open spec fn fin(o: Option<Seq<Seq<char>>>) -> Option<Seq<char>> {
+    match o { Some(ops) => if ops.len() == 1 { Some(ops[0]) } else { None }, None => None }
+}
+/// [MS-XLS] 2.5.198.3 CellParsedFormula: cce (2 bytes), rgce (cce bytes of tokens), rgcb.  The formula's text is the one operand left at the end.
+spec fn render(all: Seq<u8>, c: Ctx) -> Option<Seq<char>> {
+    if all.len() >= 2 && all.len() >= 2 + le16(all) { fin(run(all.subrange(2, 2 + le16(all)), Seq::empty(), c)) } else { None }
+}
+
+// ---- oracle sanity: the column letters everybody knows; decimal numerals; a rendered reference
+proof fn lemma_oracle_examples()
+    ensures
+        col_name(0) == seq!['A'], col_name(25) == seq!['Z'], col_name(26) == seq!['A', 'A'], col_name(255) == seq!['I', 'V'], col_name(16383) == seq!['X', 'F', 'D'],
+        dec(0) == seq!['0'], dec(7) == seq!['7'], dec(10) == seq!['1', '0'], dec(65536) == seq!['6', '5', '5', '3', '6'],
+        cell_text(2, 0x8001) == seq!['$', 'B', '3'], cell_text(2, 0x4001) == seq!['B', '$', '3'],
+        cell_text(0, 0xC000) == seq!['A', '1'], cell_text(0, 0) == seq!['$', 'A', '$', '1'],
+{
+    reveal_with_fuel(b26, 4);
+    reveal_with_fuel(dec, 6);
+    assert(col_name(0) =~= seq!['A']);
+    assert(col_name(25) =~= seq!['Z']);
+    assert(col_name(26) =~= seq!['A', 'A']);
+    assert(col_name(255) =~= seq!['I', 'V']);
+    assert(col_name(16383) =~= seq!['X', 'F', 'D']);
+    assert(dec(10) =~= seq!['1', '0']);
+    assert(dec(65536) =~= seq!['6', '5', '5', '3', '6']);
+    assert(col_name(1) =~= seq!['B']);
+    assert(dec(3) =~= seq!['3']);
+    assert(dec(1) =~= seq!['1']);
+    assert(cell_text(2, 0x8001) =~= seq!['$', 'B', '3']);
+    assert(cell_text(2, 0x4001) =~= seq!['B', '$', '3']);
+    assert(cell_text(0, 0xC000) =~= seq!['A', '1']);
+    assert(cell_text(0, 0) =~= seq!['$', 'A', '$', '1']);
+}
+
+// ---- the contract of push_column proved in unit colname determines the text: it is col_name(col)
+proof fn lemma_letter(d: int)
+    requires 0 <= d < 26,
+    ensures is_upper_c(letter(d)), letter_val_c(letter(d)) == d + 1,
+{}
+proof fn lemma_b26_unique(a: Seq<char>)
+    requires all_upper_c(a),
+    ensures a == b26(b26c(a)),
+    decreases a.len(),
+{
+    if a.len() == 0 {
+        assert(a =~= Seq::<char>::empty());
+    } else {
+        let t = a.drop_last();
+        assert forall|i: int| 0 <= i < t.len() implies is_upper_c(#[trigger] t[i]) by { assert(t[i] == a[i]); }
+        lemma_b26_unique(t);
+        let c = a.last();
+        assert(is_upper_c(a[a.len() - 1]));
+        let v = letter_val_c(c);
+        assert(1 <= v <= 26);
+        let n = b26c(a);
+        assert(n == b26c(t) * 26 + v);
+        assert((n - 1) / 26 == b26c(t) && (n - 1) % 26 == v - 1) by (nonlinear_arith) requires n == b26c(t) * 26 + v, 1 <= v <= 26, b26c(t) >= 0;
+        assert(letter((v - 1) as int) == c);
+        assert(b26(n) == b26(((n - 1) / 26) as nat).push(letter((n - 1) % 26)));
+        assert(a =~= t.push(c));
+    }
+}
+/// the three clauses of colname's contract (C14.column_letters_frame, _uppercase, column_letters) imply the equation assumed for the stub above
+proof fn lemma_colname_contract(o: Seq<char>, n: Seq<char>, col: u32)
+    requires
+        n.len() >= o.len() && n.subrange(0, o.len() as int) == o,
+        all_upper_c(appended(o, n)),
+        b26c(appended(o, n)) == col + 1,
+    ensures n == o + col_name(col as int),
+{
+    lemma_b26_unique(appended(o, n));
+    assert(n =~= n.subrange(0, o.len() as int) + appended(o, n));
+}
+
+// =====================================================================================================================
+// Lemmas about the String model
+// =====================================================================================================================
+proof fn lemma_blen_add(a: Seq<char>, b: Seq<char>)
+    ensures blen(a + b) == blen(a) + blen(b),
+    decreases b.len(),
+{
+    if b.len() == 0 { assert(a + b =~= a); }
+    else {
+        assert((a + b).drop_last() =~= a + b.drop_last());
+        assert((a + b).last() == b.last());
+        lemma_blen_add(a, b.drop_last());
+    }
+}
+proof fn lemma_blen_ge(a: Seq<char>)
+    ensures blen(a) >= a.len(),
+    decreases a.len(),
+{
+    if a.len() > 0 { lemma_blen_ge(a.drop_last()); }
+}
+proof fn lemma_blen_take_mono(s: Seq<char>, j: int, k: int)
+    requires 0 <= j <= k <= s.len(),
+    ensures blen(s.take(j)) + (k - j) <= blen(s.take(k)),
+{
+    assert(s.take(k) =~= s.take(j) + s.subrange(j, k));
+    lemma_blen_add(s.take(j), s.subrange(j, k));
+    lemma_blen_ge(s.subrange(j, k));
+}
+/// a boundary determines its char index
+proof fn lemma_cidx(s: Seq<char>, k: int)
+    requires 0 <= k <= s.len(),
+    ensures is_bnd(s, blen(s.take(k)) as int), cidx(s, blen(s.take(k)) as int) == k,
+{
+    let b = blen(s.take(k)) as int;
+    assert(is_bnd(s, b));
+    let c = cidx(s, b);
+    assert(0 <= c <= s.len() && blen(s.take(c)) == b);
+    if c < k { lemma_blen_take_mono(s, c, k); }
+    if c > k { lemma_blen_take_mono(s, k, c); }
+}
+proof fn lemma_split(a: Seq<char>, b: Seq<char>)
+    ensures
+        is_bnd(a + b, blen(a) as int), cidx(a + b, blen(a) as int) == a.len(),
+        (a + b).take(a.len() as int) == a, (a + b).skip(a.len() as int) == b,
+{
+    assert((a + b).take(a.len() as int) =~= a);
+    assert((a + b).skip(a.len() as int) =~= b);
+    lemma_cidx(a + b, a.len() as int);
+}
+/// is_bnd(s, b) with its witness
+proof fn lemma_bnd_idx(s: Seq<char>, b: int)
+    requires is_bnd(s, b),
+    ensures 0 <= cidx(s, b) <= s.len(), blen(s.take(cidx(s, b))) == b, 0 <= b <= blen(s),
+{
+    let k = cidx(s, b);
+    lemma_blen_take_mono(s, k, s.len() as int);
+    assert(s.take(s.len() as int) =~= s);
+}
+
+// =====================================================================================================================
+// (S) structural invariant of the renderer's state: the stack holds ascending char boundaries of the text  (no String panic: C06)
+// =====================================================================================================================
+pub open spec fn sorted_bnds(f: Seq<char>, st: Seq<usize>) -> bool {
+    &&& forall|i: int| 0 <= i < st.len() ==> is_bnd(f, #[trigger] st[i] as int)
+    &&& forall|i: int, j: int| 0 <= i <= j < st.len() ==> st[i] <= st[j]
+}
+/// every arm keeps the text in front of some stack entry (or the whole text), cuts the stack there, and may push that offset again
+proof fn lemma_struct(f: Seq<char>, st: Seq<usize>, j: int, f_out: Seq<char>, st_out: Seq<usize>)
+    ensures
+        ({
+            let b = if 0 <= j < st.len() { st[j] as int } else { blen(f) as int };
+            let k = cidx(f, b);
+            sorted_bnds(f, st) && 0 <= j <= st.len() && f_out.len() >= k && f_out.take(k) =~= f.take(k)
+                && (st_out =~= st.take(j) || (b <= usize::MAX && st_out =~= st.take(j).push(b as usize)))
+        }) ==> sorted_bnds(f_out, st_out),
+{
+    let b = if 0 <= j < st.len() { st[j] as int } else { blen(f) as int };
+    let k = cidx(f, b);
+    if sorted_bnds(f, st) && 0 <= j <= st.len() && f_out.len() >= k && f_out.take(k) =~= f.take(k)
+        && (st_out =~= st.take(j) || (b <= usize::MAX && st_out =~= st.take(j).push(b as usize))) {
+        if j < st.len() { assert(is_bnd(f, st[j] as int)); } else { assert(f.take(f.len() as int) =~= f); assert(is_bnd(f, b)); }
+        lemma_bnd_idx(f, b);
+        // b is a boundary of f_out
+        assert(f_out.take(k) == f.take(k));
+        assert(is_bnd(f_out, b));
+        assert forall|i: int| 0 <= i < st_out.len() implies is_bnd(f_out, #[trigger] st_out[i] as int) by {
+            if i < j {
+                assert(st_out[i] == st[i]);
+                assert(is_bnd(f, st[i] as int));
+                lemma_bnd_idx(f, st[i] as int);
+                let ki = cidx(f, st[i] as int);
+                // st[i] <= b, so its index is <= k and the prefix is shared
+                if j < st.len() { assert(st[i] <= st[j]); } else { }
+                if ki > k { lemma_blen_take_mono(f, k, ki); }
+                assert(f_out.take(ki) =~= f.take(k).take(ki));
+                assert(f.take(ki) =~= f.take(k).take(ki));
+            }
+        }
+        assert forall|i: int, l: int| 0 <= i <= l < st_out.len() implies st_out[i] <= st_out[l] by {
+            if l < j { assert(st_out[i] == st[i] && st_out[l] == st[l]); }
+            else if i < j {
+                assert(st_out[i] == st[i]);
+                if j < st.len() { assert(st[i] <= st[j]); } else { assert(is_bnd(f, st[i] as int)); lemma_bnd_idx(f, st[i] as int); }
+            }
+        }
+    }
+}
+
+// =====================================================================================================================
+// (F) functional invariant: the text is the concatenation of the rendered operands, the stack holds their start offsets
+// =====================================================================================================================
+pub open spec fn cat(ops: Seq<Seq<char>>) -> Seq<char> decreases ops.len() { if ops.len() == 0 { Seq::empty() } else { cat(ops.drop_last()) + ops.last() } }
+pub open spec fn repr(f: Seq<char>, st: Seq<usize>, ops: Seq<Seq<char>>) -> bool {
+    &&& st.len() == ops.len()
+    &&& f == cat(ops)
+    &&& forall|i: int| 0 <= i < ops.len() ==> (#[trigger] st[i]) as int == blen(cat(ops.take(i)))
+}
+proof fn lemma_cat_push(ops: Seq<Seq<char>>, t: Seq<char>)
+    ensures cat(ops.push(t)) == cat(ops) + t,
+{
+    assert(ops.push(t).drop_last() =~= ops);
+}
+proof fn lemma_cat_split(ops: Seq<Seq<char>>, i: int)
+    requires 0 <= i <= ops.len(),
+    ensures cat(ops) == cat(ops.take(i)) + cat(ops.skip(i)),
+    decreases ops.len(),
+{
+    if i == ops.len() {
+        assert(ops.take(i) =~= ops);
+        assert(ops.skip(i) =~= Seq::<Seq<char>>::empty());
+        assert(cat(ops) =~= cat(ops) + Seq::<char>::empty());
+    } else {
+        lemma_cat_split(ops.drop_last(), i);
+        assert(ops.drop_last().take(i) =~= ops.take(i));
+        assert(ops.skip(i).drop_last() =~= ops.drop_last().skip(i));
+        assert(ops.skip(i).last() == ops.last());
+        assert(cat(ops) =~= cat(ops.take(i)) + (cat(ops.drop_last().skip(i)) + ops.last()));
+    }
+}
+proof fn lemma_repr_push(f: Seq<char>, st: Seq<usize>, ops: Seq<Seq<char>>, t: Seq<char>)
+    requires repr(f, st, ops), blen(f) <= usize::MAX,
+    ensures repr(f + t, st.push(blen(f) as usize), ops.push(t)),
+{
+    lemma_cat_push(ops, t);
+    let o2 = ops.push(t);
+    let s2 = st.push(blen(f) as usize);
+    assert forall|i: int| 0 <= i < o2.len() implies (#[trigger] s2[i]) as int == blen(cat(o2.take(i))) by {
+        if i < ops.len() { assert(o2.take(i) =~= ops.take(i)); assert(s2[i] == st[i]); }
+        else { assert(o2.take(i) =~= ops); }
+    }
+}
+/// the text in front of operand k, the text from operand k on, and the offset stored for k
+proof fn lemma_repr_at(f: Seq<char>, st: Seq<usize>, ops: Seq<Seq<char>>, k: int)
+    requires repr(f, st, ops), 0 <= k < ops.len(),
+    ensures ({
+        let p = cat(ops.take(k));
+        let q = cat(ops.skip(k));
+        &&& f == p + q && st[k] as int == blen(p) && is_bnd(f, st[k] as int) && cidx(f, st[k] as int) == p.len()
+        &&& f.take(p.len() as int) == p && f.skip(p.len() as int) == q
+        &&& repr(p, st.take(k), ops.take(k))
+    }),
+{
+    let p = cat(ops.take(k));
+    let q = cat(ops.skip(k));
+    lemma_cat_split(ops, k);
+    lemma_split(p, q);
+    let o1 = ops.take(k);
+    let s1 = st.take(k);
+    assert forall|i: int| 0 <= i < o1.len() implies (#[trigger] s1[i]) as int == blen(cat(o1.take(i))) by {
+        assert(o1.take(i) =~= ops.take(i));
+        assert(s1[i] == st[i]);
+    }
+}
+proof fn lemma_cat_last(ops: Seq<Seq<char>>)
+    requires ops.len() >= 1,
+    ensures cat(ops.skip(ops.len() - 1)) == ops.last(), ops.take(ops.len() - 1) == ops.drop_last(),
+{
+    let s = ops.skip(ops.len() - 1);
+    assert(s.drop_last() =~= Seq::<Seq<char>>::empty());
+    assert(s.last() == ops.last());
+    assert(cat(s) =~= ops.last());
+    assert(ops.take(ops.len() - 1) =~= ops.drop_last());
+}
+proof fn lemma_cat_last2(ops: Seq<Seq<char>>)
+    requires ops.len() >= 2,
+    ensures cat(ops.skip(ops.len() - 2)) == ops[ops.len() - 2] + ops[ops.len() - 1],
+{
+    let s = ops.skip(ops.len() - 2);
+    assert(s.drop_last().drop_last() =~= Seq::<Seq<char>>::empty());
+    assert(s.drop_last().last() == ops[ops.len() - 2]);
+    assert(s.last() == ops[ops.len() - 1]);
+    assert(cat(s.drop_last()) =~= ops[ops.len() - 2]);
+}
+
+/// what a loop iteration must establish: the code consumed exactly the token's bytes and its state is the oracle's next stack
+spec fn arm_ok(rg: Seq<u8>, ops: Seq<Seq<char>>, c: Ctx, f: Seq<char>, st: Seq<usize>, rg_out: Seq<u8>, f_out: Seq<char>, st_out: Seq<usize>) -> bool {
+    repr(f, st, ops) ==> match step(rg, ops, c) { Some((n, o2)) => rg_out == rg.skip(n) && repr(f_out, st_out, o2), None => true }
+}
+spec fn tok_of(rg: Seq<u8>, c: Ctx) -> Tok { decode(rg, c)->Some_0.0 }
+spec fn len_of(rg: Seq<u8>, c: Ctx) -> int { decode(rg, c)->Some_0.1 }
+
+proof fn lemma_run_step(rg: Seq<u8>, ops: Seq<Seq<char>>, c: Ctx)
+    ensures run(rg, ops, c) == (if rg.len() == 0 { Some(ops) } else { match step(rg, ops, c) { Some((n, o2)) => run(rg.skip(n), o2, c), None => None } }),
+{}
+
+/// operand tokens: the offset is pushed, the operand's text is appended
+proof fn lemma_arm_operand(rg: Seq<u8>, ops: Seq<Seq<char>>, c: Ctx, f: Seq<char>, st: Seq<usize>, rg_out: Seq<u8>, f_out: Seq<char>, st_out: Seq<usize>)
+    ensures
+        (decode(rg, c) matches Some((Tok::Operand(t), n)) && blen(f) <= usize::MAX && f_out =~= f + t && st_out =~= st.push(blen(f) as usize) && rg_out =~= rg.skip(n))
+            ==> arm_ok(rg, ops, c, f, st, rg_out, f_out, st_out),
+{
+    if decode(rg, c) matches Some((Tok::Operand(t), n)) && blen(f) <= usize::MAX && f_out =~= f + t && st_out =~= st.push(blen(f) as usize) && rg_out =~= rg.skip(n) {
+        if repr(f, st, ops) { lemma_repr_push(f, st, ops, tok_of(rg, c)->Operand_0); }
+    }
+}
+/// tokens that rewrite the top operand x into pre + x + post (text in front of it kept, stack unchanged)
+proof fn lemma_arm_top(rg: Seq<u8>, ops: Seq<Seq<char>>, c: Ctx, f: Seq<char>, st: Seq<usize>, rg_out: Seq<u8>, f_out: Seq<char>, st_out: Seq<usize>, pre: Seq<char>, post: Seq<char>)
+    ensures
+        (repr(f, st, ops) && ops.len() >= 1 && decode(rg, c) is Some && step(rg, ops, c) == Some((len_of(rg, c), ops.take(ops.len() - 1).push(pre + ops[ops.len() - 1] + post)))
+            && f_out =~= f.take(cidx(f, st.last() as int)) + pre + f.skip(cidx(f, st.last() as int)) + post && st_out =~= st && rg_out =~= rg.skip(len_of(rg, c)))
+            ==> arm_ok(rg, ops, c, f, st, rg_out, f_out, st_out),
+{
+    if repr(f, st, ops) && ops.len() >= 1 && decode(rg, c) is Some && step(rg, ops, c) == Some((len_of(rg, c), ops.take(ops.len() - 1).push(pre + ops[ops.len() - 1] + post)))
+        && f_out =~= f.take(cidx(f, st.last() as int)) + pre + f.skip(cidx(f, st.last() as int)) + post && st_out =~= st && rg_out =~= rg.skip(len_of(rg, c)) {
+        let k = ops.len() - 1;
+        lemma_repr_at(f, st, ops, k);
+        lemma_cat_last(ops);
+        let p = cat(ops.take(k));
+        let nt = pre + ops[k] + post;
+        lemma_repr_push(p, st.take(k), ops.take(k), nt);
+        assert(st.take(k).push(st[k]) =~= st);
+        assert(f_out =~= p + nt);
+    }
+}
+/// binary operators: the top operand is cut off, the operator and the operand are appended; one offset is dropped
+proof fn lemma_arm_binary(rg: Seq<u8>, ops: Seq<Seq<char>>, c: Ctx, f: Seq<char>, st: Seq<usize>, rg_out: Seq<u8>, f_out: Seq<char>, st_out: Seq<usize>)
+    ensures
+        (decode(rg, c) matches Some((Tok::Binary(op), n)) && n == 1 && repr(f, st, ops) && ops.len() >= 2
+            && f_out =~= f.take(cidx(f, st.last() as int)) + op + f.skip(cidx(f, st.last() as int)) && st_out =~= st.drop_last() && rg_out =~= rg.skip(1))
+            ==> arm_ok(rg, ops, c, f, st, rg_out, f_out, st_out),
+{
+    if decode(rg, c) matches Some((Tok::Binary(op), n)) && n == 1 && repr(f, st, ops) && ops.len() >= 2
+        && f_out =~= f.take(cidx(f, st.last() as int)) + op + f.skip(cidx(f, st.last() as int)) && st_out =~= st.drop_last() && rg_out =~= rg.skip(1) {
+        let op = tok_of(rg, c)->Binary_0;
+        let n = ops.len() as int;
+        lemma_repr_at(f, st, ops, n - 1);
+        lemma_cat_last(ops);
+        lemma_repr_at(f, st, ops, n - 2);
+        let p = cat(ops.take(n - 2));
+        let p1 = cat(ops.take(n - 1));
+        assert(ops.take(n - 1).drop_last() =~= ops.take(n - 2));
+        assert(ops.take(n - 1).last() == ops[n - 2]);
+        assert(p1 == p + ops[n - 2]);
+        let nt = ops[n - 2] + op + ops[n - 1];
+        lemma_repr_push(p, st.take(n - 2), ops.take(n - 2), nt);
+        assert(st.take(n - 2).push(st[n - 2]) =~= st.drop_last());
+        assert(f_out =~= p + nt);
+    }
+}
+/// bit masks of the code, in the arithmetic of the oracle
+proof fn lemma_byte_masks()
+    ensures
+        forall|b: u8| #![trigger b & 0x3F] (b & 0x3F) as int == (b as int) % 64,
+        forall|b: u8| #![trigger b & 0x80] (b & 0x80 != 0x80) == ((b as int) / 128 == 0),
+        forall|b: u8| #![trigger b & 0x40] (b & 0x40 != 0x40) == (((b as int) / 64) % 2 == 0),
+{
+    assert forall|b: u8| #![trigger b & 0x3F] (b & 0x3F) as int == (b as int) % 64 by { assert(b & 0x3F == b % 64) by (bit_vector); }
+    assert forall|b: u8| #![trigger b & 0x80] (b & 0x80 != 0x80) == ((b as int) / 128 == 0) by { assert((b & 0x80 != 0x80) == (b / 128 == 0)) by (bit_vector); }
+    assert forall|b: u8| #![trigger b & 0x40] (b & 0x40 != 0x40) == (((b as int) / 64) % 2 == 0) by { assert((b & 0x40 != 0x40) == ((b / 64) % 2 == 0)) by (bit_vector); }
+}
+
+pub mod m {
+use super::*;
+verus! {
 //@@ fn src/xls.rs parse_formula props=C14 entry ret=res r13 mutparams
+//@@ r6 3
+//@@ sig
+    ensures
+        //# C14.formula_text_is_a1_rendering
+        render(__p_rgce@, mk_ctx(sheets@, names@, xtis@, *encoding)) matches Some(t) ==> (res matches Ok(s) && s@ == t),
+//@@ body
+    broadcast use axiom_display_u16, axiom_display_u32, axiom_display_str, axiom_display_string, axiom_str_index_range, axiom_string_index_req_range;
+    let ghost ctx = mk_ctx(sheets@, names@, xtis@, *encoding);
+    let ghost mut ops: Seq<Seq<char>> = Seq::empty();
+//@@ before /while !rgce\.is_empty\(\)/
+    proof {
+        assert(cat(ops) =~= Seq::<char>::empty());
+    }
 //@@ loop 0
+        invariant
+            ctx == mk_ctx(sheets@, names@, xtis@, *encoding),
+            //# C06.stack_offsets_are_char_boundaries
+            sorted_bnds(formula@, stack@),
+            //# C14.token_step
+            render(__p_rgce@, ctx) is Some ==> render(__p_rgce@, ctx) == fin(run(rgce@, ops, ctx)) && repr(formula@, stack@, ops),
         decreases rgce@.len(),
+//@@ before /let ptg = rgce\[0\];/
+        broadcast use axiom_display_u16, axiom_display_u32, axiom_display_str, axiom_display_string, axiom_str_index_range, axiom_string_index_req_range;
+        let ghost rg_in = rgce@;
+        let ghost f_in = formula@;
+        let ghost st_in = stack@;
+        let ghost ops_in = ops;
+        proof {
+            lemma_run_step(rg_in, ops_in, ctx);
+            lemma_byte_masks();
+        }
+//@@ loop 3
+                        invariant
+                            __it3.obeys_prophetic_iter_laws(),
+                        decreases 0int,
+//@@ before /\}\s*if stack\.len\(\)/
+        proof {
+            // (S)
+            lemma_cidx(f_in, f_in.len() as int);
+            assert(f_in.take(f_in.len() as int) =~= f_in);
+            if st_in.len() > 0 { lemma_bnd_idx(f_in, st_in.last() as int); }
+            lemma_struct(f_in, st_in, stack@.len() as int, formula@, stack@);
+            lemma_struct(f_in, st_in, stack@.len() - 1, formula@, stack@);
+            // (F)
+            lemma_arm_operand(rg_in, ops_in, ctx, f_in, st_in, rgce@, formula@, stack@);
+            ops = if step(rg_in, ops_in, ctx) is Some { step(rg_in, ops_in, ctx)->Some_0.1 } else { ops_in };
+        }
 //@@ end
+}
+}
 
 } // verus!
 fn main() {}
